@@ -152,6 +152,7 @@ def run_case(ck, seed, kind, up, down, nops, coq_in, label):
     ops = gen_ops(rng, b, nops)
     out, model_ops = [], []
     ctx = {"family_seed": seed, "node": b.name, "kind": kind, "start_up_duration": up, "shut_down_duration": down, "ops": ops}
+    resetting = False
     for i, op in enumerate(ops):
         before = b.node.operating_state.name
         before_obs = b.observe()
@@ -163,6 +164,16 @@ def run_case(ck, seed, kind, up, down, nops, coq_in, label):
         after = b.node.operating_state.name
         obs = b.observe()
         # ---- the property, checked directly on the implementation ----
+        # only a reset restarts the node on its own: one shutdown followed by ONE automatic start
+        if op[0] == "Reset" and before == "ON":
+            resetting = True
+        started_itself = (before in ("OFF", "SHUTTING_DOWN") and after in ("BOOTING", "ON") and op[0] != "Startup") or \
+                         (op[0] == "Shutdown" and before == "ON" and after in ("ON", "BOOTING"))
+        if started_itself and not resetting:
+            ck.violation("node-restarted-by-itself", "%s went %s -> %s on %s although no reset is in progress (durations up=%d down=%d): only a reset "
+                         "is followed by an automatic start" % (b.name, before, after, op, up, down), dict(ctx, at=i))
+        if after in ("BOOTING", "ON") and before != after:
+            resetting = False
         if not allowed(before, after, up, down, op[0] == "Reset"):
             ck.violation("power-transition:%s->%s" % (before, after), "%s moved %s -> %s on %s (durations up=%d down=%d)" % (b.name, before, after, op, up, down), dict(ctx, at=i))
         if after != "ON" and any(obs[1:1 + len(b.ports)]):
@@ -267,7 +278,7 @@ def run(ck):
                "and the property is checked directly (transition table, interfaces disabled, no software running when OFF, requests refused, no "
                "frame accepted or sent while not ON); plus exact dwell-time timelines for shutdown, startup and reset per duration pair")
     coq_props(ck)
-    gen_tie.check(ck, ["power"])
+    gen_tie.check(ck, ["power", "nodepower"])
     coq_in = []
     durs = [(u, d) for u in (0, 1, 3) for d in (0, 1, 3)] if ck.quick else [(u, d) for u in range(4) for d in range(4)]
     for ki, kind in enumerate(KINDS):
